@@ -45,7 +45,7 @@ Definition check_of (k : ckind) : check cstate :=
            match st with
            | SDistinct vals =>
                let v := nth_cell row col in
-               (if existsb (text_eqb v) vals then st else SDistinct (vals ++ [v]), None)
+               (if existsb (text_eqb v) vals then st else SDistinct (v :: vals), None)
            | _ => (st, None)
            end;
          ck_end := fun st =>
